@@ -14,9 +14,9 @@ def run(seed=0, tier="quick", aimed=None):
         nz, ny, nx = (int(v) for v in r.integers(6, 10, size=3))
         F = r.normal(size=(3, nz, ny, nx))
         p, q = float(r.uniform(0.5, 2)), float(r.uniform(0.5, 2))
-        curl = np.zeros_like(F)
+        curl = r.normal(size=F.shape)   # output arrays start dirty: the kernel must overwrite its region
         spne.gen_curl_pyst_kernel_3d(real_t=np.float64, reset_ghost_zone=False)(curl=curl, field=F, prefactor=p)
-        div = np.zeros((nz, ny, nx))
+        div = r.normal(size=(nz, ny, nx))   # output arrays start dirty: the kernel must overwrite its region
         spne.gen_divergence_pyst_kernel_3d(real_t=np.float64, reset_ghost_zone=False)(divergence=div, field=curl, inv_dx=q)
         I = (slice(2, -2),) * 3
         e = float(np.max(np.abs(div[I]))); cases += 1
@@ -45,14 +45,14 @@ def run(seed=0, tier="quick", aimed=None):
         # 2D
         ny, nx = int(r.integers(7, 12)), int(r.integers(7, 12))
         psi = r.normal(size=(ny, nx))
-        u = np.zeros((2, ny, nx))
+        u = r.normal(size=(2, ny, nx))   # output arrays start dirty: the kernel must overwrite its region
         spne.gen_outplane_field_curl_pyst_kernel_2d(real_t=np.float64, reset_ghost_zone=False)(curl=u, field=psi, prefactor=p)
         div2 = (u[0][2:-2, 3:-1] - u[0][2:-2, 1:-3]) + (u[1][3:-1, 2:-2] - u[1][1:-3, 2:-2])
         e = float(np.max(np.abs(div2))); cases += 1
         if e > 1e-12:
             return {"ok": False, "cases": cases, "samples": samples, "failing_input": {
                 "oracle": "2d_velocity_divfree", "grid": [ny, nx], "psi": impl.tolist(psi), "p": p, "max_div": e}}
-        cc = np.zeros((ny, nx))
+        cc = r.normal(size=(ny, nx))   # output arrays start dirty: the kernel must overwrite its region
         spne.gen_inplane_field_curl_pyst_kernel_2d(real_t=np.float64)(curl=cc, field=u, prefactor=q)
         wide = q * p * (4 * psi[2:-2, 2:-2] - psi[4:, 2:-2] - psi[:-4, 2:-2] - psi[2:-2, 4:] - psi[2:-2, :-4])
         e = impl.relerr(cc[2:-2, 2:-2], wide); cases += 1
@@ -63,7 +63,7 @@ def run(seed=0, tier="quick", aimed=None):
         w = r.normal(size=(ny, nx)); w0 = w.copy()
         spne.gen_update_vorticity_from_velocity_forcing_pyst_kernel_2d(real_t=np.float64)(
             vorticity_field=w, velocity_forcing_field=Fv, prefactor=p)
-        cc = np.zeros((ny, nx))
+        cc = r.normal(size=(ny, nx))   # output arrays start dirty: the kernel must overwrite its region
         spne.gen_inplane_field_curl_pyst_kernel_2d(real_t=np.float64)(curl=cc, field=Fv, prefactor=p)
         e = impl.relerr(w[1:-1, 1:-1], (w0 + cc)[1:-1, 1:-1]); cases += 1
         if e > 1e-12:
